@@ -42,6 +42,39 @@ type eqNested struct {
 	In eqStruct
 	L  []string
 }
+// structs nested six levels deep, two plain fields on either side of the nested one at every level
+type (
+	eqD1 struct {
+		A int
+		N eqD2
+		B int
+	}
+	eqD2 struct {
+		A int
+		N eqD3
+		B int
+	}
+	eqD3 struct {
+		A int
+		N *eqD4
+		B int
+	}
+	eqD4 struct {
+		A int
+		N eqD5
+		B int
+	}
+	eqD5 struct {
+		A int
+		N eqD6
+		B int
+	}
+	eqD6 struct {
+		X, Y int
+		Z    string
+	}
+)
+
 type eqBytes struct {
 	Arr [2]byte
 	Sl  []byte
@@ -103,6 +136,19 @@ func (n eqNode) build() any {
 		return []any{n.Ss[0], n.Vs[0], n.Ss[1] == "t"}
 	case "anyarr":
 		return [2]any{n.Ss[0], n.Vs[0]}
+	case "deep": // containers nested five and six levels deep
+		v := n.Vs
+		switch n.Kind {
+		case "struct":
+			return eqD1{v[0], eqD2{v[1], eqD3{v[2], &eqD4{v[3], eqD5{v[4], eqD6{v[5], v[6], n.Ss[0]}, v[7]}, v[8]}, v[9]}, v[10]}, v[11]}
+		case "slice":
+			return [][][][][]int{{{{{v[0], v[1]}, {v[2]}}}, {{{v[3]}}}}, {{{{v[4], v[5]}}}}}
+		case "map":
+			return map[string]map[string]map[string]map[string][]int{n.Ss[0]: {"b": {"c": {"d": {v[0], v[1]}, "e": {v[2]}}}}, "z": {"y": {"x": {"w": {v[3]}}}}}
+		case "mixed":
+			return []any{map[string]any{n.Ss[0]: []any{&eqD5{v[0], eqD6{v[1], v[2], n.Ss[0]}, v[3]}, [2]any{v[4], []int{v[5]}}}}}
+		}
+		panic(n.Kind)
 	case "anymix": // a []any / [2]any leaf whose entries are not all bare primitives
 		v0, v1 := n.Vs[0], n.Vs[1]
 		switch n.Kind {
@@ -302,6 +348,8 @@ func (n eqNode) String() string {
 		return fmt.Sprintf("%s%v%q", n.T, n.Vs, n.Ss)
 	case "anymix":
 		return fmt.Sprintf("anymix-%s%d%v%q", n.Kind, n.Cap, n.Vs, n.Ss)
+	case "deep":
+		return fmt.Sprintf("deep-%s%v%q", n.Kind, n.Vs, n.Ss)
 	case "typed":
 		return fmt.Sprintf("%s(%d)", n.Kind, n.Vs[0])
 	case "barr":
@@ -407,6 +455,18 @@ func (n eqNode) mutants() []eqNode {
 				m2.Vs = m2.Vs[:len(m2.Vs)-1]
 				add(m2, "slice one element shorter")
 			}
+		}
+	case "deep":
+		used := map[string]int{"struct": 12, "slice": 6, "map": 4, "mixed": 6}[n.Kind]
+		for i := 0; i < used; i++ {
+			m := cloneNode(n)
+			m.Vs[i] += 3
+			add(m, fmt.Sprintf("deep(%s) number %d changed", n.Kind, i))
+		}
+		if n.Kind != "slice" {
+			m := cloneNode(n)
+			m.Ss[0] += "'"
+			add(m, "deep("+n.Kind+") string / key changed")
 		}
 	case "anymix":
 		for i := range n.Vs {
@@ -625,6 +685,8 @@ func eqLeaves() []eqNode {
 		{T: "anymix", Kind: "ptr", Vs: []int{1, 2}, Ss: []string{"a"}}, {T: "anymix", Kind: "nil", Vs: []int{1, 2}, Ss: []string{"a"}}, {T: "anymix", Kind: "slice", Vs: []int{1, 2}, Ss: []string{"a"}},
 		{T: "anymix", Kind: "map", Vs: []int{1, 2}, Ss: []string{"a"}}, {T: "anymix", Kind: "struct", Vs: []int{1, 2}, Ss: []string{"a"}}, {T: "anymix", Kind: "arr", Vs: []int{1, 2}, Ss: []string{"a"}},
 		{T: "anymix", Kind: "nested", Vs: []int{1, 2}, Ss: []string{"a"}},
+		{T: "deep", Kind: "struct", Vs: []int{1, 2, 3, 4, 5, 6, 7, 8, 9, 10, 11, 12}, Ss: []string{"z"}}, {T: "deep", Kind: "slice", Vs: []int{1, 2, 3, 4, 5, 6}, Ss: []string{"-"}},
+		{T: "deep", Kind: "map", Vs: []int{1, 2, 3, 4}, Ss: []string{"a"}}, {T: "deep", Kind: "mixed", Vs: []int{1, 2, 3, 4, 5, 6}, Ss: []string{"k"}},
 		{T: "barr", Kind: "[3]byte", Vs: []int{1, 2, 3}}, {T: "barr", Kind: "[]byte", Vs: []int{1, 2, 3}}, {T: "barr", Kind: "*[3]byte", Vs: []int{1, 2, 3}},
 		{T: "barr", Kind: "[2]uint16", Vs: []int{1, 2}}, {T: "barr", Kind: "[2]bool", Vs: []int{1, 2}}, {T: "barr", Kind: "struct{[2]byte}", Vs: []int{1, 2, 4}},
 		{T: "barr", Kind: "map[string][2]byte", Vs: []int{1, 2}}, {T: "barr", Kind: "[2][2]byte", Vs: []int{1, 2, 4}},
@@ -814,8 +876,62 @@ func c05Trees(c *Ctx) []eqNode {
 	return trees
 }
 
+// c05SharedBacking: two slice leaves cut from ONE backing array (the way append within spare room, or a
+// re-slice, produces them) that differ in length or in one entry are different leaves; the same cut twice
+// is the same leaf. Identity of the memory says nothing about equality of the values.
+func c05SharedBacking(c *Ctx) int {
+	n := 0
+	type pair struct {
+		name string
+		a, b any
+		same bool
+	}
+	var pairs []pair
+	ints := make([]int, 4, 8)
+	strs := make([]string, 4, 8)
+	anys := make([]any, 4, 8)
+	byts := make([]byte, 4, 8)
+	for i := 0; i < 4; i++ {
+		ints[i], strs[i], anys[i], byts[i] = i+1, fmt.Sprint("s", i), i+1, byte(i+1)
+	}
+	ints5, strs5, anys5, byts5 := append(ints, 5), append(strs, "s4"), append(anys, 5), append(byts, 5) // grown in place
+	pairs = append(pairs,
+		pair{"[]int grown in place by one", ints, ints5, false}, pair{"[]int re-sliced one shorter", ints, ints[:3], false}, pair{"[]int cut twice", ints[:3], ints[:3], true},
+		pair{"[]int same start, emptied", ints, ints[:0], false}, pair{"[]int offset by one (same length)", ints5[:4], ints5[1:5], false},
+		pair{"[]string grown in place by one", strs, strs5, false}, pair{"[]string re-sliced one shorter", strs, strs[:3], false}, pair{"[]string cut twice", strs[:2], strs[:2], true},
+		pair{"[]any grown in place by one", anys, anys5, false}, pair{"[]any re-sliced one shorter", anys, anys[:3], false},
+		pair{"[]byte grown in place by one", byts, byts5, false}, pair{"[]byte re-sliced one shorter", byts, byts[:3], false}, pair{"[]byte cut twice", byts[:4], byts5[:4], true},
+	)
+	sharedMap := map[string]int{"a": 1}
+	pairs = append(pairs, pair{"the very same map", sharedMap, sharedMap, true})
+	for _, pr := range pairs {
+		for _, wrap := range []struct {
+			n string
+			f func(v any) any
+		}{{"a LIST element", func(v any) any { return stackage.List().Push("x", v) }}, {"a Condition's expression", func(v any) any { return stackage.Cond("k", stackage.Eq, v) }},
+			{"an entry of a []any leaf in an AND", func(v any) any { return stackage.And().Push([]any{v}) }}} {
+			for dir := 0; dir < 2; dir++ {
+				a, b := pr.a, pr.b
+				if dir == 1 {
+					a, b = b, a
+				}
+				err, p := isEqualErr(wrap.f(a), wrap.f(b))
+				n++
+				c.Transitions.Add(1)
+				if p != "" {
+					c.Violation("panic:shared-backing-array", fmt.Sprintf("IsEqual panicked for %s as %s: %s", pr.name, wrap.n, p), nil, 0)
+				} else if (err == nil) != pr.same {
+					c.Violation("shared-backing-array:"+mutClass(pr.name), fmt.Sprintf("two leaves cut from one backing array (%s), each %s, direction %d: IsEqual=%v, want equal=%v", pr.name, wrap.n, dir, err, pr.same), nil, 0)
+				}
+			}
+		}
+	}
+	return n
+}
+
 func init() {
 	register(&Check{ID: "C05", Engine: "B", Run: func(c *Ctx) {
+		c.Bound["pairs_of_leaves_sharing_a_backing_array"] = c05SharedBacking(c)
 		trees := c05Trees(c)
 		c.Rule = "every tree of the bounded family (leaves: int, string, float, bool, uint8, *int, **string, []int, [3]int, []string, map[string]int, struct, *struct, struct with embedded field, struct with unexported field; Conditions over those; nested stacks with/without capacity; an alias) built twice independently, and every single-point mutation of it (each leaf, each slice/array/map position, renamed map key, keyword, operator, kind, capacity, sibling swap, one element more/fewer) compared in both directions; non-trivial = distinct (tree, mutation) pairs"
 		parallelFor(len(trees), func(i int) {
